@@ -187,10 +187,10 @@ HARNESSES = [
             expect_reach=['selected'], split=32),
     Harness('select_markers_per_parent', h_select,
             cases=[{'genes': 2}, {'genes': 3, 'max_target': 1, 'states': 2}],
-            thorough_cases=[{'genes': 3, 'max_target': 1},
-                            {'genes': 3, 'max_target': 2, 'states': 2},
-                            {'genes': 4, 'max_target': 1},
-                            {'genes': 2, 'leaves': 4, 'max_target': 2}],
+            thorough_cases=[{'genes': 3, 'max_target': 2, 'states': 2},
+                            {'genes': 4, 'max_target': 1, 'states': 2},
+                            {'genes': 2, 'leaves': 4, 'max_target': 1,
+                             'states': 2}],
             funcs=['selection_pipeline._marker_selection_worker',
                    'selection.select_marker_genes_v2', '_run_selection',
                    '_choose_desperate_markers', '_choose_gene',
